@@ -328,7 +328,7 @@ def e2e_scenarios(tier, rng):
     def add(lbest, rbest, fork, full=False, rate=0.0, mf=0, chunk=10, hashreq=50, tasks=3, pend=4, peers=3):
         S.append(dict(id="e%d" % len(S), lbest=lbest, rbest=rbest, fork=fork, target=rbest, npeers=peers, chunk=chunk, hashreq=hashreq,
                       maxtasks=tasks, maxpend=pend, full=full, fault_rate=rate, max_faults=mf, seed=rng.randrange(1 << 30),
-                      remote_knows_local=(len(S) % 2 == 0)))
+                      remote_knows_local=(len(S) % 3 != 2)))
     # anchors reach the genesis block; forks between anchors; faulty peers
     add(rng.randrange(20, 60), rng.randrange(70, 110), rng.randrange(0, 20), rate=0.15, mf=8, chunk=4, hashreq=10)
     # more than 32 anchors: last anchor > 0; fork below it => honest "no ancestor" and full scan
@@ -490,6 +490,31 @@ def recv_check(c):
             raise vlib.Infra("the real %s receiver left the model:\n%s" % (kind, "\n".join((r.get("notes") or [])[:3])[:2000]))
 
 
+def findanc_check(c):
+    """responder side of the anchor comparison (FindAncestor.tla): every anchor list replayed on the real findAncestor of a
+    real chain service that holds a real side branch"""
+    res = vlib.tlc(SPEC_DIR, "MC_FindAncestor", "MC_FindAncestor.cfg", os.path.join(c.work, "fa"), workers=1, timeout=900)
+    req_ok(c, res, "findAncestor design + enumeration of anchor lists (main / side-branch / unknown blocks in every position)")
+    trs = vlib.parse_transitions(res.out)
+    if len(trs) < 500:
+        raise vlib.Infra("too few findAncestor cases: %d" % len(trs))
+    cases = [dict(anchors=a["anchors"], answer=d[1]) for (_s, a, d) in trs]
+    if not any(cs["answer"][0] == "none" and cs["anchors"][-1][0] == "s" for cs in cases):
+        raise vlib.Infra("no anchor list ending in a side-branch block without a main-chain anchor was generated")
+    cfg = open(os.path.join(SPEC_DIR, "MC_FindAncestor.cfg")).read()
+    k = {x: int(re.search(r"(?m)^\s*%s\s*=\s*(\d+)" % x, cfg).group(1)) for x in ("R", "F", "S")}
+    inpath = os.path.join(c.work, "findanc_in.json")
+    json.dump(dict(r=k["R"], f=k["F"], s=k["S"], cases=cases), open(inpath, "w"))
+    outpath = os.path.join(c.work, "findanc_out.json")
+    rc, output = test_bin(c, "./syncer/").run("^TestVerifFindAncestor$", {"VERIF_IN": inpath, "VERIF_OUT": outpath,
+                                              "VERIF_SEED": c.seed, "VERIF_TIER": c.tier}, timeout=900, tag="fa")
+    r = absorb(c, outpath, output)
+    if rc != 0 and not r.get("violations"):
+        raise vlib.Infra("findAncestor harness failed:\n" + output[-3000:])
+    if (r.get("extra") or {}).get("divergences") and not r.get("violations"):
+        raise vlib.Infra("the real findAncestor left the model:\n%s" % "\n".join((r.get("notes") or [])[:3])[:2000])
+
+
 def graph_behaviours(c, cfg, rng, tag, min_trs):
     gen = vlib.tlc(SPEC_DIR, "MC_Syncer", cfg, os.path.join(c.work, "gen_" + tag), workers=1, timeout=2400)
     req_ok(c, gen, "Syncer transition enumeration (%s)" % cfg)
@@ -543,6 +568,7 @@ def run(c):
 
     def e2e_thread():
         try:
+            findanc_check(c)
             run_e2e(c, e2e)
         except Exception as e:
             errors.append(e)
